@@ -95,7 +95,8 @@ def coq_build(clean=False):
         mk = os.path.join(COQ, "Makefile")
         if not os.path.exists(mk) or os.path.getmtime(mk) < os.path.getmtime(os.path.join(COQ, "_CoqProject")):
             sh("coq_makefile -f _CoqProject -o Makefile", cwd=COQ, check=True)
-        rc, out = sh("timeout 3000 make -j16 2>&1", cwd=COQ)
+        # -k: a file that no longer checks must only break the properties that depend on it
+        rc, out = sh("timeout 3000 make -k -j16 2>&1", cwd=COQ)
         return rc == 0, out
 
 
